@@ -47,7 +47,9 @@ FAULTS = [
     "subgrid:i1-far-beyond", "subgrid:j1-far-beyond", "subgrid:i0-far-negative", "release:all-before-start+stray-frequency",
     "forcing:ends-early+other-time-units-in-second-file", "forcing:starts-late+other-time-units-in-second-file",
     "release:lon-lat-only+grid-without-ll2xy",
+    "forcing:ends-one-step-early+record-starts-years-before", "forcing:ends-early+packed-time-coordinate", "forcing:starts-late+packed-time-coordinate",
 ]
+PACKED_CONTROL = "control:packed-time-coordinate"  # the same packed files covering the window: must run
 NOLL = "release:lon-lat-only+grid-without-ll2xy"
 NOLL_CONTROL = "control:xy-release+grid-without-ll2xy"  # the same plug-in grid with an X/Y release file: must run
 
@@ -98,6 +100,15 @@ def build(base, fault, d):
     elif fault == "forcing:starts-half-a-step-late":
         slots = [0] + slots[1:]
         times[0] = t(0) + sgn * DT // 2
+    elif fault == "forcing:ends-one-step-early+record-starts-years-before":
+        # relative to the length of the whole record (800 days) the missing step is tiny - it is missing all the same
+        slots = slots[:-1] + [NSTEPS - 1]
+        times[-2] = t(0) - sgn * 800 * 86400
+        times[NSTEPS - 1] = t(NSTEPS - 1)
+    elif fault == "forcing:ends-early+packed-time-coordinate":
+        slots = slots[:-1]
+    elif fault == "forcing:starts-late+packed-time-coordinate":
+        slots = slots[1:]
     elif fault == "forcing:ends-half-a-step-early":
         slots = slots[:-1] + [NSTEPS]
         times[NSTEPS] = t(NSTEPS) - sgn * DT // 2
@@ -135,7 +146,10 @@ def build(base, fault, d):
                 tu = "seconds since 1969-12-31 23:40:00" if late_file else "seconds since 1970-01-01 00:20:00"
         if gi == 0 and units_fault and fault.startswith("forcing:starts-late") != base["rev"] and False:
             pass
-        W.write_file(d / f"f_{gi:02d}.nc", [fr(s) for s in g], time_units=tu)
+        if fault.endswith("packed-time-coordinate"):  # seconds since 2020 stored as integers of half seconds
+            W.write_file(d / f"f_{gi:02d}.nc", [fr(s) for s in g], time_units="seconds since 2020-01-01 00:00:00", time_scale=0.5)
+        else:
+            W.write_file(d / f"f_{gi:02d}.nc", [fr(s) for s in g], time_units=tu)
     W.write_file(d / "grid.nc", [fr(cal[0])])
     # release
     rows_slots = [0, 2, 3] if not base["cont"] else [0, 3]
@@ -272,7 +286,7 @@ def run_subprocess(base):
     viols, n = [], 0
     todo = ["none"]
     for f in base["faults"]:
-        todo += [NOLL_CONTROL, f] if f == NOLL else [f]
+        todo += [NOLL_CONTROL, f] if f == NOLL else [PACKED_CONTROL, f] if f == "forcing:ends-early+packed-time-coordinate" else [f]
     for fault in todo:
         if fault.startswith("release:all-before-start") and b["cont"]:
             continue
@@ -295,7 +309,7 @@ def run_subprocess(base):
         started = (d / "loop_started").exists()
         c = dict(b, subprocess=True, faults=[fault])
         tag = f"[python -m ladim] base={b} fault={fault}"
-        if fault in ("none", NOLL_CONTROL):
+        if fault in ("none", NOLL_CONTROL, PACKED_CONTROL):
             if r.returncode != 0 or nrec < 2 or not started:
                 viols.append(util.viol("base-scenario-broken", f"{tag}: exit status {r.returncode}, records {nrec}, loop started {started}: {r.stderr[-300:]}", c))
                 break
@@ -328,11 +342,12 @@ def run_case(base):
             continue
         if fault.startswith("release:all-before-start") and b["cont"]:
             continue  # not a fault: a continuous release keeps releasing the rows of the latest file time before start
-        if fault == NOLL:
-            err, started, nrec = run_one(b, NOLL_CONTROL, dshared)
+        ctl = NOLL_CONTROL if fault == NOLL else PACKED_CONTROL if fault == "forcing:ends-early+packed-time-coordinate" else None
+        if ctl:
+            err, started, nrec = run_one(b, ctl, dshared)
             n += 1
             if err is not None or nrec < 2 or not started:
-                viols.append(util.viol("base-scenario-broken", f"control {NOLL_CONTROL} on {b} did not run: error={err} records={nrec} loop_started={started}", dict(b, only=fault)))
+                viols.append(util.viol("base-scenario-broken", f"control {ctl} on {b} did not run: error={err} records={nrec} loop_started={started}", dict(b, only=fault)))
                 continue
         err, started, nrec = run_one(b, fault, dshared)
         n += 1
